@@ -7395,6 +7395,13 @@ moveto_op_comp(struct lyxp_set *set1, struct lyxp_set *set2, const char *op, ly_
     uint32_t i;
     LY_ERR rc;
 
+    /* a node set compared with a boolean is converted as a whole, an empty node set is false */
+    if ((set1->type == LYXP_SET_NODE_SET) && (set2->type == LYXP_SET_BOOLEAN)) {
+        LY_CHECK_RET(lyxp_set_cast(set1, LYXP_SET_BOOLEAN));
+    } else if ((set1->type == LYXP_SET_BOOLEAN) && (set2->type == LYXP_SET_NODE_SET)) {
+        LY_CHECK_RET(lyxp_set_cast(set2, LYXP_SET_BOOLEAN));
+    }
+
     /* iterative evaluation with node-sets */
     if ((set1->type == LYXP_SET_NODE_SET) || (set2->type == LYXP_SET_NODE_SET)) {
         if (set1->type == LYXP_SET_NODE_SET) {
